@@ -93,6 +93,10 @@ func c04Oracle(c *vlib.Case) *vlib.Violation {
 		return vlib.V("c04:tojsonindent-"+sig, "ToJsonIndent panicked: %s", text)
 	}
 	if e1 != nil {
+		if strings.Contains(e1.Error(), "exceeded max depth") && bytes.Contains(c.Project.RootBytes(), []byte("allOf")) {
+			// each schema is below the nesting limit, the inherited properties are added at the depth of the heir (A4)
+			return vlib.V("c04:tojson-error:max-depth-through-allOf", "the build succeeded but ToJson fails: %v", e1)
+		}
 		return vlib.V("c04:tojson-error:"+errClass(e1.Error()), "the build succeeded but ToJson fails: %v", e1)
 	}
 	if e2 != nil {
@@ -183,6 +187,14 @@ var c04Nesting = &vlib.Check{
 		n := 1 + r.Intn(1500)
 		if vlib.Tier() == "thorough" && vlib.Chance(r, 7, 8) {
 			n = vlib.Pick(r, []int{4700 + r.Intn(200), 4899, 4900, 4901, 4950, 5000, 5100, 6000, 9000})
+		}
+		if vlib.Tier() == "thorough" && vlib.Chance(r, 1, 6) {
+			// an object nested d2 levels deep inherits, through allOf, a property nested d1 levels deep
+			d1, d2 := 1500+r.Intn(1500), 1500+r.Intn(1500)
+			var sb strings.Builder
+			sb.WriteString("JSIGHT 0.3\n\nTYPE @a\n{\"p\": " + strings.Repeat("[", d1) + "1" + strings.Repeat("]", d1) + "}\n\nGET /x\n  200\n")
+			sb.WriteString(strings.Repeat("{\n\"a\":", d2) + "{ // {allOf: \"@a\"}\n\"q\": 1\n}" + strings.Repeat("\n}", d2) + "\n")
+			return &vlib.Case{Project: vlib.SingleFile([]byte(sb.String())), Params: map[string]any{"levels": d1 + d2, "shape": "allOf-amplified"}}
 		}
 		doc, shape := genNestingDoc(r, n)
 		return &vlib.Case{Project: vlib.SingleFile(doc), Params: map[string]any{"levels": n, "shape": shape}}
